@@ -1058,6 +1058,8 @@ func runStatic(r *mon.Report, tier string, idx, ord int, rng *rand.Rand) {
 	d.allMethods = rng.Intn(4) == 0
 	shape := "random"
 	switch ord % 8 {
+	case 2:
+		shape = "drift-replacement-create-fails-during-scale-up"
 	case 1:
 		shape = "last-claim-finalises-during-create"
 	case 3:
@@ -1102,6 +1104,10 @@ func runStatic(r *mon.Report, tier string, idx, ord int, rng *rand.Rand) {
 		case "drift-while-peer-finalises":
 			replicas = int64(2 + rng.Intn(3))
 			limit = replicas + []int64{1, 1, 2}[rng.Intn(3)]
+			budget = "100%"
+		case "drift-replacement-create-fails-during-scale-up":
+			replicas = int64(2 + rng.Intn(2))
+			limit = replicas + 2
 			budget = "100%"
 		case "drift-start-fails-then-scale-up", "drift-candidate-finalises-during-start":
 			replicas = int64(1 + rng.Intn(3))
@@ -1172,6 +1178,8 @@ func runStatic(r *mon.Report, tier string, idx, ord int, rng *rand.Rand) {
 		}
 	case "last-claim-finalises-during-create":
 		d.shapeLastClaim()
+	case "drift-replacement-create-fails-during-scale-up":
+		d.shapeReplacementCreateFails()
 	case "drift-while-peer-finalises":
 		d.shapeDriftPeer()
 	case "drift-start-fails-then-scale-up":
@@ -1394,6 +1402,57 @@ func (d *stat) shapeDriftStartFails() {
 	}
 	d.editReplicas(pool, lim)
 	d.setSig("scale-up")
+	d.hookPct = 10
+	for i := 0; i < 4; i++ {
+		d.randomStepNoRestart(100 + i)
+		d.countCheck(fmt.Sprintf("after step %d", 100+i), "")
+	}
+}
+
+// shapeReplacementCreateFails: every claim drifts and there is headroom for two replacements under the node limit, so
+// StaticDrift starts (at least) two replace commands, each holding one reserved node. The API server refuses the first
+// replacement NodeClaim create; inside the create call of the next replacement (its reservation is still outstanding) the
+// pool is scaled up to its limit and static provisioning reconciles.
+func (d *stat) shapeReplacementCreateFails() {
+	e := d.e
+	pool := d.pools[0]
+	d.hookPct = 0
+	names := e.ClaimNames()
+	if len(names) < 2 {
+		return
+	}
+	np := d.pool(pool)
+	lim, _ := nodeLimit(np)
+	for _, n := range names {
+		e.Provider.Drift[n] = cloudprovider.DriftReason("CloudDrift")
+		d.stepNCDisruption(n)
+	}
+	d.fullSync()
+	kind := faultKinds[d.rng.Intn(len(faultKinds))]
+	e.API.SetFaults(&world.Fault{AtCall: 1, Kind: kind, Match: func(verb, k, caller string) bool { return verb == "create" && k == "NodeClaim" }})
+	d.setSig("fault-create")
+	creates := 0
+	second := func(verb string, obj any) bool {
+		if !isNodeClaimCreate(verb, obj) {
+			return false
+		}
+		creates++
+		return creates == 2
+	}
+	scale := func() {
+		d.step("  inside the second replacement's create: scale %s up to %d and run static provisioning (reserved=%v)", pool, lim, reservedOf(e.Cluster.NodePoolState))
+		d.editReplicas(pool, lim)
+		d.stepProv(pool)
+	}
+	d.script = []*scripted{{at: -1, pred: second, f: scale}}
+	d.scriptAt = 0
+	d.setSig("scale-up")
+	d.r.Inc("static_shape_replacement_create_fails")
+	d.step("disruption reconcile: %d claims drifted, first replacement create fails (%s)", len(names), kind)
+	d.stepDisrupt()
+	d.script = nil
+	e.API.ClearFaults()
+	d.countCheck("after shape replacement-create-fails", "")
 	d.hookPct = 10
 	for i := 0; i < 4; i++ {
 		d.randomStepNoRestart(100 + i)
